@@ -575,6 +575,9 @@ def _items():
     # load of a (descriptor, iterators) pair: the selector keeps its meaning (also 0, [] and ''); contract in contracts/C13.py
     items.append(Item('load.tuple-source', lambda vc: __import__('contracts.C13', fromlist=['sym_tuple_source']).sym_tuple_source(vc), [],
                       P + 'load.py::load.safe_process_datapackage'))
+    # duplicate gives the copy a descriptor of its own (a later step that selects ONE of the twins edits one schema)
+    from contracts.common import lazy_sym
+    items.append(Item('duplicate.own-descriptor', lazy_sym('C16', 'sym_duplicate_func'), [], P + 'duplicate.py::duplicate.func'))
     items.append(Item('pipeline', None, [('frame-differential', nat_pipeline), ('whole-resource-steps', nat_whole_resource_steps)], None))
     from contracts import natives as NAT
     items.append(Item('load.pair', None, [('sequential-source-selectors', NAT.nat_load_pair_selectors)],
